@@ -236,8 +236,10 @@ def rule_tri(prog, rep, R="C07.tri"):
            "    self.triangular = wrappers.Lambda(_to_triangular, diag=wrappers.BijectionReparam(jnp.diag(arr), SoftPlus()), arr=arr)\n"
            "    self.lower = lower\n")
     want, _ = eval_ref_method(prog, c, ref, [LOC, ARR], {"lower": LOWER}, want_fields=True)
-    compare(rep, R, site, "TriangularAffine.triangular", f.get("triangular", ("unknown", "missing")),
-            want["triangular"], "triangular")
+    # Lambda nodes are compared by the value they unwrap to (closure, partial or callable object alike)
+    from ..terms import lambda_normal
+    compare(rep, R, site, "TriangularAffine.triangular", lambda_normal(prog, f.get("triangular", ("unknown", "missing"))),
+            lambda_normal(prog, want["triangular"]), "triangular")
     compare(rep, R, site, "TriangularAffine.lower", f.get("lower", ("unknown", "missing")), want["lower"], "lower")
     for m in ("inverse", "inverse_and_log_det"):
         t = method_term(prog, c, m)
@@ -356,8 +358,9 @@ def rule_spline_init(prog, rep, R):
     K, I, M, A = ("sym", "KNOTS"), ("sym", "INTERVAL"), ("sym", "MIN_D"), ("sym", "ADJ")
     f = Interp(prog).eval_init(c, [], {"knots": K, "interval": I, "min_derivative": M, "softmax_adjust": A})
     xp, yp, dv = f.get("x_pos"), f.get("y_pos"), f.get("derivatives")
-    ok_knots = xp is not None and yp is not None and same(xp, yp) and xp[0] == "call" and \
-        xp[1] == ("ext", "flowjax.wrappers.Lambda")
+    from ..terms import lambda_normal
+    ok_knots = xp is not None and yp is not None and xp[0] == "call" and xp[1] == ("ext", "flowjax.wrappers.Lambda") \
+        and (same(xp, yp) or equal(lambda_normal(prog, xp), lambda_normal(prog, yp)))
     if not ok_knots and xp is not None and yp is not None and xp[0] == yp[0] == "call" and xp[1] == yp[1] == \
             ("ext", "flowjax.wrappers.Lambda") and len(xp[2]) == len(yp[2]) == 2 and same(xp[2][0], yp[2][0]):
         # the parameterisation starts with a softmax: any two constant raw vectors of the same length give the same knots
